@@ -138,6 +138,18 @@ class RawDribble(io.RawIOBase):
         return n
 
 
+class NonBlockingRaw(RawDribble):
+    """Raw source in non-blocking mode (O_NONBLOCK pipe, socket with setblocking(False)): when nothing has
+    arrived yet a read answers None - "no data yet", which is not end of input.  The tape decides when."""
+
+    def readinto(self, b):
+        if not self.pipe.at_end() and self.pipe.sim.flip(1, 4, "no_data_yet"):
+            self.pipe.sim.fault("no_data_yet")
+            self.pipe.sim.event("read_none")
+            return None
+        return super().readinto(b)
+
+
 class DuckBody(io.IOBase):
     """HTTP-response-body style source (urllib3 / botocore): derives from io.IOBase only, not seekable,
     read(amt) returns whatever the current transfer chunk holds (a short read), readinto() available."""
@@ -336,7 +348,7 @@ class SeekableRaw(io.RawIOBase):
 
 
 FRONTENDS = ("bytesio", "raw", "buffered", "seekable_buffered", "gzip", "duck", "rwpair", "autoclose", "greedy",
-             "strict", "gzip_pipe")
+             "strict", "gzip_pipe", "nonblocking")
 LIVE_FRONTENDS = ("raw", "buffered", "duck", "rwpair", "autoclose", "greedy", "strict")
 
 
@@ -387,6 +399,8 @@ def open_frontend(kind: str, sim: Sim, data: bytes | None = None, pipe: Pipe | N
     raw = RawDribble(pipe)
     if kind == "raw":
         return raw, pipe
+    if kind == "nonblocking":
+        return NonBlockingRaw(pipe), pipe
     if kind == "duck":
         return DuckBody(pipe), pipe
     if kind == "autoclose":
